@@ -100,7 +100,7 @@ func checkC08(p *Prog, r *Report) {
 			}
 			bad := false
 			for _, t := range tests {
-				from := Loc{t.If.Block().Succs[1-t.NilSucc], -1}
+				from := edgeLoc(t.If.Block(), 1-t.NilSucc)
 				if hit := (reachQ{From: from, NoEdges: ne, Target: func(i ssa.Instruction) bool { return i == ssa.Instruction(genCall) }}).run(); nil != hit {
 					bad = true
 				}
@@ -115,7 +115,7 @@ func checkC08(p *Prog, r *Report) {
 			}
 			/* A successful load returns the loaded certificate. */
 			for _, t := range tests {
-				from := Loc{t.If.Block().Succs[t.NilSucc], -1}
+				from := edgeLoc(t.If.Block(), t.NilSucc)
 				if hit := (reachQ{From: from, Target: func(i ssa.Instruction) bool {
 					return i == ssa.Instruction(genCall) || (nil != saveCall && i == ssa.Instruction(saveCall))
 				}}).run(); nil != hit {
